@@ -1,10 +1,14 @@
 import HawkModel.RexLemmas
+import HawkModel.RexParseLemmas
+import HawkModel.RexBracketLemmas
 /-!
 # C06 — regular expressions match leftmost-longest
 
 What is proved here is about the **specification matcher** `Hawk.Rex.matchLL` (an executable POSIX
 leftmost-longest matcher over the ERE syntax tree `Re`) with respect to the denotational semantics
-`Hawk.Rex.Matches`.  TRE itself (TNFA construction, backtracking and parallel matcher) is *not*
+`Hawk.Rex.Matches`, and (round 5) about the trees of TRE's FRONT END: `tre-parse.c` is transcribed in
+`RexParse.lean` (`Tre.parse`), tied tree-by-tree to the real `tre_parse()`; see the section "the front end of TRE".
+TRE's back end (TNFA construction, backtracking and parallel matcher) is *not*
 modelled: `vlib/props/c06.py` ties the real engines to `matchLL` by exhaustive bounded enumeration
 (every ERE tree up to a size bound × every subject up to a length bound × IGNORECASE × NOTBOL), so
 the claim for the implementation is bounded, the claims below are for all patterns and subjects.
@@ -299,6 +303,169 @@ theorem notbol_suffix_matchLL (ic ne : Bool) (s : List Char) (o : Nat) (ho : 0 <
 theorem notbol_irrelevant_without_bol (ic ne : Bool) (r : Re) (s : List Char) (h : noBol r = true) :
     matchLL ⟨ic, true, ne⟩ r s = matchLL ⟨ic, false, ne⟩ r s :=
   matchLL_congr fun _ _ => matches_noBol h
+
+/-! ## the front end of TRE: `tre_parse` (transcribed in `RexParse.lean`, tied tree-by-tree to the real `tre_parse()`)
+
+`Tre.parse cf pat` is a total function (structural recursion); what it answers for a pattern — the tree, or the
+`reg_errcode_t` class — is compared with the real `tre_parse()` on every generated pattern by `vlib/props/c06.py`
+(P requests).  The theorems below are about the trees: what they mean, that the submatch bookkeeping does not change
+the meaning, and that the verified matcher run on the parsed tree returns the leftmost-longest match.  What remains
+outside is TRE's automaton construction and its two simulations. -/
+
+open Tre in
+/-- every match of a tree lies inside the subject (all trees) -/
+theorem ast_match_inside_subject (ic nb ne : Bool) (s : List Char) (a : Ast) (i j : Nat)
+    (h : AMatches ic nb ne s a i j) : i ≤ j ∧ j ≤ s.length :=
+  AMatches.bounds a h
+
+open Tre in
+/-- **the tree denotes the language of its ERE.**  `toRe` turns a `tre_parse` tree into an ERE syntax tree of the
+specification (literal leaf → bracket expression over its code range / class, iteration → interval, union → `|`),
+and the tree's own meaning `AMatches` (code ranges, classes, assertion bits, `min..max` copies) is the POSIX
+denotation `Matches` of that ERE, matched case-sensitively (REG_ICASE is compiled into the tree).
+PARTIAL: trees inside `Ast.plain` — no back reference (not regular), no negated-class list (`[^[:alpha:]]`), no
+class leaf under REG_ICASE; for those `toRe` is tied by the correspondence run only. -/
+theorem ast_denotation_partial (ic nb ne : Bool) (s : List Char) (a : Ast) (h : a.plain ic = true) :
+    ∃ r, toRe ic a = some r ∧ ∀ i j, AMatches ic nb ne s a i j ↔ Matches ⟨false, nb, ne⟩ s r i j :=
+  toRe_denotation a h
+
+open Tre in
+/-- **the verified matcher on the parsed tree returns the leftmost-longest match** of the tree's language
+(same restriction as `ast_denotation_partial`) -/
+theorem ast_matcher_leftmost_longest_partial (ic nb ne : Bool) (s : List Char) (a : Ast) (h : a.plain ic = true)
+    (st len : Nat) :
+    amatchLL ic nb ne a s = some (st, len) ↔
+      AMatches ic nb ne s a st (st + len) ∧
+      (∀ p e, p < st → ¬ AMatches ic nb ne s a p e) ∧
+      (∀ e, AMatches ic nb ne s a st e → e ≤ st + len) := by
+  obtain ⟨r, hr, hm⟩ := toRe_denotation (ic := ic) (nb := nb) (ne := ne) (s := s) a h
+  unfold amatchLL
+  rw [hr]
+  simp only [matchLL_some, IsLL, hm]
+
+open Tre in
+/-- no match is reported exactly when the tree's language has no match in the subject -/
+theorem ast_matcher_none_partial (ic nb ne : Bool) (s : List Char) (a : Ast) (h : a.plain ic = true) :
+    amatchLL ic nb ne a s = none ↔ ∀ i e, ¬ AMatches ic nb ne s a i e := by
+  obtain ⟨r, hr, hm⟩ := toRe_denotation (ic := ic) (nb := nb) (ne := ne) (s := s) a h
+  unfold amatchLL
+  rw [hr]
+  simp only [matchLL_none, hm]
+
+open Tre in
+/-- pattern text → `tre_parse` tree → matcher: when the text parses to a tree inside `Ast.plain`, the answer is the
+leftmost-longest match of that tree's language -/
+theorem matchText_leftmost_longest_partial (cf : CF) (nb ne : Bool) (pat s : List Char) (p : Parsed)
+    (hp : parse cf pat = .ok p) (h : p.ast.plain cf.icase = true) (st len : Nat) :
+    matchText cf nb ne pat s = .ok (some (st, len)) ↔
+      AMatches cf.icase nb ne s p.ast st (st + len) ∧
+      (∀ q e, q < st → ¬ AMatches cf.icase nb ne s p.ast q e) ∧
+      (∀ e, AMatches cf.icase nb ne s p.ast st e → e ≤ st + len) := by
+  have hmt : matchText cf nb ne pat s = .ok (amatchLL cf.icase nb ne p.ast s) := by
+    unfold matchText; rw [hp]
+  rw [hmt, ← ast_matcher_leftmost_longest_partial cf.icase nb ne s p.ast h st len]
+  constructor
+  · intro h; injection h
+  · intro h; rw [h]
+
+open Tre in
+/-- a rejected pattern is rejected by the whole pipeline with the same class -/
+theorem matchText_rejects (cf : CF) (nb ne : Bool) (pat s : List Char) (e : PErr) (hp : parse cf pat = .error e) :
+    matchText cf nb ne pat s = .error e := by
+  unfold matchText; rw [hp]
+
+open Tre in
+/-- `PARSE_MARK_FOR_SUBMATCH` sets the submatch id, counts one more submatch … -/
+theorem mark_submatch_id (id : Nat) (r : Ast) : (mark id r).sub = some id ∧ (mark id r).nsub = r.nsub + 1 :=
+  ⟨mark_sub id r, mark_nsub id r⟩
+
+open Tre in
+/-- … and does not change the language, although it puts an `EMPTY ·` in front of a tree that already is a
+submatch (`((a))`) -/
+theorem mark_preserves_language (ic nb ne : Bool) (s : List Char) (id : Nat) (r : Ast) (i j : Nat) :
+    AMatches ic nb ne s (mark id r) i j ↔ AMatches ic nb ne s r i j :=
+  mark_matches id r i j (fun _ _ h => Nat.le_trans (AMatches.bounds r h).1 (AMatches.bounds r h).2)
+
+open Tre in
+/-- the submatch bookkeeping never influences what a tree matches -/
+theorem submatch_fields_irrelevant (ic nb ne : Bool) (s : List Char) (a : Ast) (sb : Option Nat) (n i j : Nat) :
+    AMatches ic nb ne s (a.setSub sb n) i j ↔ AMatches ic nb ne s a i j :=
+  AMatches_setSub a sb n i j
+
+open Tre in
+/-- an accepted pattern is submatch 0 as a whole (`nofirstsub = 0`) -/
+theorem parse_whole_is_submatch_zero (cf : CF) (pat : List Char) (p : Parsed) (hp : parse cf pat = .ok p) :
+    p.ast.sub = some 0 ∧ 1 ≤ p.ast.nsub := by
+  unfold parse at hp
+  split at hp
+  · cases hp
+  · injection hp with hp
+    subst hp
+    exact ⟨mark_sub 0 _, by rw [mark_nsub]; omega⟩
+
+open Tre in
+/-- **a negated bracket expression is exactly the complement of its items** (`tre_parse_bracket`, the code in which
+two defects were found and fixed: 6ef3e2d overlapping items).  For EVERY array of range items (`code_min ≤ code_max`,
+in any order): after the sort by `code_min`, the leaves the union loop builds plus the final `curr_min..TRE_CHAR_MAX`
+literal contain a code `d` iff no item contains `d`. -/
+theorem negated_bracket_complement (pos : Nat) (negs : List CClass) (items : List Item)
+    (hh : ∀ it ∈ items, ∃ h, it.hi = some h ∧ it.lo ≤ h) (d : Nat) :
+    let r := bracketBuild true pos negs (sortItems items) none 0 0
+    inRanges (optRanges (addNode r.1 (.leaf (.lit ⟨r.2.toNat, none, pos, none, negs⟩) none 0))) d ↔
+      ¬ ∃ it ∈ items, it.has d := by
+  intro r
+  obtain ⟨hs, hm⟩ := sortItems_spec items
+  have := negated_bracket_is_complement pos negs (sortItems items) hs (fun it hit => hh it ((hm it).1 hit)) d
+  simp only at this
+  rw [this]
+  constructor
+  · rintro h ⟨it, hit, hd⟩; exact h ⟨it, (hm it).2 hit, hd⟩
+  · rintro h ⟨it, hit, hd⟩; exact h ⟨it, (hm it).1 hit, hd⟩
+
+open Tre in
+/-- the sort the negated case relies on (`hawk_qsort` with `tre_compare_items`, modelled by insertion): sorted by
+`code_min` and a rearrangement of the same items -/
+theorem bracket_items_sorted (l : List Item) :
+    (sortItems l).Pairwise (fun a b => a.lo ≤ b.lo) ∧ ∀ y, y ∈ sortItems l ↔ y ∈ l :=
+  sortItems_spec l
+
+/-! ### non-vacuity: concrete trees, error classes, and the pipeline -/
+section
+open Tre
+
+/-- `a(b|c)*` : catenation of `a` and an iteration of a marked union; positions 0,1,2; two submatches
+(the harness prints this tree as `C(L97-97@0:-1:0,I(U(L98-98@1:-1:0,L99-99@2:-1:0):1:1,0,-1,0):-1:1):0:2 nsub=2 npos=3`) -/
+example : parseOk {} "a(b|c)*".toList =
+    some ⟨.cat (mkLit 97 (some 97) 0) (.iter (.union (mkLit 98 (some 98) 1) (mkLit 99 (some 99) 2) (some 1) 1) 0 (-1) false none 1) (some 0) 2, 2, 3⟩ := by decide +kernel
+
+/-- error classes: EPAREN, EBRACK, EBRACE, BADBR, ERANGE, ECTYPE, ECOLLATE, EESCAPE -/
+example : parseErr {} "(a".toList = some .eparen := by decide +kernel
+example : parseErr {} "[a".toList = some .ebrack := by decide +kernel
+example : parseErr {} "a{1".toList = some .ebrace := by decide +kernel
+example : parseErr {} "a{2,1}".toList = some .badbr := by decide +kernel
+example : parseErr {} "[b-a]".toList = some .erange := by decide +kernel
+example : parseErr {} "[[:foo:]]".toList = some .ectype := by decide +kernel
+example : parseErr {} "[[.a.]]".toList = some .ecollate := by decide +kernel
+example : parseErr {} "a\\".toList = some .eescape := by decide +kernel
+/-- TRE's stacking rules: `*a` and `a**` are accepted (an EMPTY leaf is iterated; iterations nest) -/
+example : parseOk {} "a**".toList = some ⟨.iter (mkIter (mkLit 97 (some 97) 0) 0 (-1) false) 0 (-1) false (some 0) 1, 1, 1⟩ := by decide +kernel
+example : parseOk {} "*a".toList = some ⟨.cat (mkIter mkEmpty 0 (-1) false) (mkLit 97 (some 97) 0) (some 0) 1, 1, 1⟩ := by decide +kernel
+/-- REG_ICASE is compiled into the tree; `((a))` gets an `EMPTY ·` for the second mark -/
+example : parseOk { icase := true } "a".toList = some ⟨.union (mkLit 65 (some 65) 0) (mkLit 97 (some 97) 0) (some 0) 1, 1, 1⟩ := by decide +kernel
+example : parseOk {} "((a))".toList =
+    some ⟨.cat mkEmpty (.cat mkEmpty (.leaf (.lit ⟨97, some 97, 0, none, []⟩) (some 2) 1) (some 1) 2) (some 0) 3, 3, 1⟩ := by decide +kernel
+
+/-- `[^a-cb-e]` (overlapping items, the witness of 6ef3e2d): codes 0..96 and 102.. ; the hypotheses of
+`negated_bracket_complement` hold for its items -/
+example : parseOk {} "[^a-cb-e]".toList =
+    some ⟨.union (.leaf (.lit ⟨0, some 96, 0, none, []⟩) none 0) (.leaf (.lit ⟨102, none, 0, none, []⟩) none 0) (some 0) 1, 1, 1⟩ := by decide +kernel
+example : ∀ it ∈ [(⟨97, some 99, none⟩ : Item), ⟨98, some 101, none⟩], ∃ h, it.hi = some h ∧ it.lo ≤ h := by decide
+
+/-- the pipeline on a parsed tree inside `Ast.plain` (hypotheses of the `_partial` theorems are satisfiable) -/
+example : ((parseOk {} "a(b|c)*d".toList).map fun p => p.ast.plain false) = some true := by decide +kernel
+example : (matchText {} false false "a(b|c)*d".toList "xabcbd".toList).toOption = some (some (1, 5)) := by decide +kernel
+example : (matchText { icase := true } false false "a[b-c]+".toList "xABCb".toList).toOption = some (some (1, 4)) := by decide +kernel
+end
 
 /-! ## non-vacuity: concrete answers (these are the witnesses on which TRE's engines go wrong) -/
 
